@@ -101,38 +101,78 @@ def soup(rng, depth=0, budget=12, angle_safe=True, closers=("()", "[]", "{}")):
 
 # ---- expression grammar (C14) ---------------------------------------------------------------
 
-def expression(rng, depth=0, terminators=(",", ";")):
-    """token list of an expression whose top level contains none of `terminators` and whose
-    `<`/`>` are template brackets or parenthesised comparisons (AngleClosed)"""
+BINOPS = ["+", "-", "*", "/", "%", "&&", "||", "|", "^", "&", "<<", "->", "."]
+ATOMS = ["1", "0x1f", "1.5", "'c'", "\"s\"", "a", "b", "nullptr", "true", "this", "0", "42ull", "\")\"", "';'", "\",\"", "L\"w\"", "'>'"]
+
+
+def expression(rng, depth=0, top=True, angle_ops=False):
+    """token list (lexer alphabet) of an expression.  At its top level there is no `,` `;` `>`
+    `)` `]` `}` and, unless `angle_ops`, no `<` that is not closed by a matching `>` (AngleClosed):
+    comparisons appear parenthesised; commas appear inside brackets only."""
     k = rng.random()
-    atoms = ["1", "0x1f", "1.5", "'c'", "\"s\"", "a", "b", "nullptr", "true", "this", "sizeof"]
-    if depth > 3 or k < 0.3:
-        return [rng.choice(atoms)]
-    if k < 0.45:
-        return expression(rng, depth + 1) + [rng.choice(["+", "-", "*", "/", "%", "&&", "||", "|", "^", "&", "<<", "=="[:1] + "="][:11])] + expression(rng, depth + 1) if False else expression(rng, depth + 1) + [rng.choice(["+", "-", "*", "/", "%", "&&", "||", "|", "^", "&", "<<"])] + expression(rng, depth + 1)
-    if k < 0.58:
-        return ["("] + expression(rng, depth + 1, ()) + [rng.choice(["<", ">", ","]) if rng.random() < 0.4 else "+"] + expression(rng, depth + 1, ()) + [")"]
-    if k < 0.7:
+    if depth > 3 or k < 0.22:
+        return [rng.choice(ATOMS)]
+    sub = lambda **kw: expression(rng, depth + 1, **kw)
+    if k < 0.38:
+        return sub(top=top, angle_ops=angle_ops) + [rng.choice(BINOPS)] + sub(top=top, angle_ops=angle_ops)
+    if k < 0.5:
+        # parenthesised: comparisons, commas, terminators are fine in here
+        inner = sub(top=False)
+        r = rng.random()
+        if r < 0.25:
+            inner = inner + ["<"] + sub(top=False)
+        elif r < 0.4:
+            inner = inner + [">"] + sub(top=False)
+        elif r < 0.5:
+            inner = inner + ["<"] + sub(top=False) + ["&&"] + sub(top=False) + ["<"] + sub(top=False)
+        elif r < 0.6:
+            inner = inner + [","] + sub(top=False)
+        elif r < 0.65:
+            inner = inner + [";"] + sub(top=False)
+        elif r < 0.7:
+            inner = inner + ["<"] + ["("] + sub(top=False) + [">"] + sub(top=False) + [")"]
+        return ["("] + inner + [")"]
+    if k < 0.62:
         args = []
         for i in range(rng.randint(0, 3)):
             if i:
                 args.append(",")
-            args += expression(rng, depth + 1, ())
-        return [rng.choice(["f", "ns", "g"])] + (["::", "h"] if rng.random() < 0.3 else []) + ["("] + args + [")"]
-    if k < 0.8:
+            args += sub(top=False)
+        head = [rng.choice(["f", "ns", "g", "sizeof", "alignof", "noexcept"])]
+        if head[0] in ("f", "ns", "g") and rng.random() < 0.3:
+            head += ["::", "h"]
+        return head + ["("] + args + [")"]
+    if k < 0.74:
+        # template-id: commas and nested template-ids inside the angle brackets
         targs = []
-        for i in range(rng.randint(1, 2)):
+        for i in range(rng.randint(1, 3)):
             if i:
                 targs.append(",")
-            targs += [rng.choice(["int", "T", "3", "X"])]
-        return ["X", "<"] + targs + [">", "::", "v"]
-    if k < 0.88:
+            r = rng.random()
+            if r < 0.4:
+                targs += [rng.choice(["int", "T", "3", "X", "char"])]
+            elif r < 0.6:
+                targs += ["std", "::", "pair", "<", "int", ",", "T", ">"]
+            elif r < 0.8:
+                targs += ["("] + sub(top=False) + [rng.choice([">", "<", "+"])] + sub(top=False) + [")"]
+            else:
+                targs += ["Y", "<", "Z", "<", "int", ">", ">"]
+        tail = rng.choice([["::", "v"], ["::", "value"], ["(", ")"], ["{", "}"], ["::", "f", "(", "1", ")"]])
+        return [rng.choice(["X", "std"])] + (["::", "is_same_v"] if rng.random() < 0.3 else []) + ["<"] + targs + [">"] + tail
+    if k < 0.82:
         items = []
         for i in range(rng.randint(0, 3)):
             if i:
                 items.append(",")
-            items += expression(rng, depth + 1, ())
-        return ["{"] + items + ["}"]
-    if k < 0.94:
-        return ["a", "["] + expression(rng, depth + 1, ()) + ["]"]
-    return [rng.choice(["-", "!", "~", "*", "&"])] + expression(rng, depth + 1)
+            items += sub(top=False)
+        return ([rng.choice(["T", "S"])] if rng.random() < 0.4 else []) + ["{"] + items + ["}"]
+    if k < 0.88:
+        return [rng.choice(["a", "b"]), "["] + sub(top=False) + ["]"]
+    if k < 0.92:
+        # lambda
+        return ["[", rng.choice(["&", "=", "this"]), "]", "(", "int", "q", ")", "{", "return", "q", "+"] + sub(top=False) + [";", "}"]
+    if k < 0.95:
+        return sub(top=top) + ["?"] + sub(top=top) + [":"] + sub(top=top)
+    if k < 0.97 and angle_ops:
+        return sub(top=top) + [rng.choice(["<", ">"])] + sub(top=top)
+    return [rng.choice(["-", "!", "~", "*", "&", "new", "sizeof"])] + sub(top=top, angle_ops=angle_ops)
